@@ -37,6 +37,10 @@ CLAIMED = {
    text="For every layout the observable snapshot is computed on the real library under every registration order of the defining files and compared; TLC proves order independence of the repaired model (RepairedEqualsR under all orders).",
    note="Schedule effect = per-file analysis order (atomicity is C09's subject); <= 3/4 definers, all permutations.",
    technique="TLA+ case table over all permutations + replay, snapshot comparison"),
+ "C16": dict(level=MC, ref="DESIGN.md section 4 C16",
+   text="compute_fixture_cycles is transcribed step by step into TLA+ (explicit-stack DFS, root order) and TLC evaluates it on every dependency graph of the table; the per-definition reference graph (layer R) decides soundness and completeness of every reported cycle and the scope rule; every (graph, registration order) is replayed on the real library with 3 additional fresh databases for run-to-run stability; the model must predict the implementation's exact output.",
+   note="<= 3 fixture names over 4 files, all parameter lists, all registration orders of defining files; scope universe: 5 scopes x dependency defined at up to 4 places.",
+   technique="TLA+ transcription of the DFS + case table (TLC) + replay with SCC / scope oracle"),
 }
 
 UNDER_CONSTRUCTION = "check under construction in this round (DESIGN.md section 8); not yet claimed"
